@@ -3,7 +3,8 @@
     incrementProposerPriority, computeAvgProposerPriority, computeMaxMinPriorityDiff,
     getValWithMostPriority, GetProposer/findProposer, TotalVotingPower,
     updateWithChangeSet and its helpers, Copy) and of Validator.CompareProposerPriority
-    (types/validator.go), transcribed branch by branch from the code as it is today
+    (types/validator.go), and of calculateValidatorSetUpdates / the validator part of updateState
+    (kai/state/cstate/execution.go), transcribed branch by branch from the code as it is today
     (computeMaxMinPriorityDiff as repaired by eb47a62).
 
     Conventions.  An address is the number whose 20-byte big-endian encoding it is, so
@@ -446,6 +447,46 @@ Definition new_validator_set (vals : list validator) : option vset :=
   end.
 
 (* ------------------------------------------------------------------ *)
+(** * kai/state/cstate/execution.go: calculateValidatorSetUpdates and the validator part of
+      updateState (the path by which the application's validator report reaches the set) *)
+
+Fixpoint has_dup (l : list validator) : bool :=
+  match l with
+  | [] => false
+  | v :: t => has_addr (v_addr v) t || has_dup t
+  end.
+
+(** [last] is a Go map filled in slice order (a later entry overwrites an earlier one); the
+    keys that remain after the report has been scanned are appended as removals in map order,
+    which is unspecified: the model uses slice order (UpdateWithChangeSet sorts by address). *)
+Definition calculate_updates (last_vals report : list validator) : list validator :=
+  match report with
+  | [] => []
+  | _ =>
+    if has_dup report then report
+    else
+      filter (fun v => match get_by_addr (v_addr v) (rev last_vals) with
+                       | None => true
+                       | Some o => negb (v_power o =? v_power v)
+                       end) report
+      ++ map (fun a => {| v_addr := a; v_power := 0; v_prio := 0 |})
+             (nodup N.eq_dec (filter (fun a => negb (has_addr a report)) (map v_addr last_vals)))
+  end.
+
+(** updateState restricted to NextValidators: works on a copy, so on error the state is the one
+    passed in; [None] = panic *)
+Definition apply_report (s : vset) (report : list validator) : option (vset * uerr) :=
+  match calculate_updates (vs_vals s) report with
+  | [] => match increment s 1 with Some s' => Some (s', UOk) | None => None end
+  | ups =>
+    match update_with_change_set s ups true with
+    | None => None
+    | Some (s1, UOk) => match increment s1 1 with Some s' => Some (s', UOk) | None => None end
+    | Some (_, e) => Some (s, e)
+    end
+  end.
+
+(* ------------------------------------------------------------------ *)
 (** * Histories over a few named sets (slots), as the harness drives them *)
 
 Inductive op :=
@@ -453,7 +494,8 @@ Inductive op :=
 | OpInc (slot : nat) (times : Z)
 | OpUpd (slot : nat) (changes : list validator)
 | OpCopy (src dst : nat)
-| OpRounds (slot : nat) (rounds : nat).      (* rounds x IncrementProposerPriority(1), proposer read each round *)
+| OpRounds (slot : nat) (rounds : nat)       (* rounds x IncrementProposerPriority(1), proposer read each round *)
+| OpReport (slot : nat) (report : list validator).   (* calculateValidatorSetUpdates + updateState *)
 
 (** observation of a slot: TotalVotingPower(), GetProposer() (when asked), the validators *)
 Record obs := {
@@ -513,6 +555,11 @@ Definition step (st : list vset) (o : op) (ask : bool) : list vset * obs :=
     end
   | OpCopy i j =>
     let '(s', ob) := observe (slot_get st i) ask false UOk [] in (set_nth j s' st, ob)
+  | OpReport i rep =>
+    match apply_report (slot_get st i) rep with
+    | None => let '(s', ob) := observe (slot_get st i) ask true UOk [] in (set_nth i s' st, ob)
+    | Some (s, e) => let '(s', ob) := observe s ask false e [] in (set_nth i s' st, ob)
+    end
   | OpRounds i n =>
     match rounds_run (slot_get st i) n [] with
     | None => let '(s', ob) := observe (slot_get st i) ask true UOk [] in (set_nth i s' st, ob)
